@@ -23,7 +23,7 @@ import (
 )
 
 const (
-	quickSingles = 360     // classes: all boundary points first, random classes after them
+	quickSingles = 400     // classes: all boundary points first, random classes after them
 	quickIgnore  = 3 * 128 // 3 rich projects x every subset of the 7 kinds
 	quickTotal   = quickSingles + quickIgnore
 	thoroughAll  = 6000 + 9*128 // 6000 classes + 9 rich projects x 128 subsets
@@ -75,9 +75,9 @@ var Check = &run.Check{
 		"parameters 3-7 x {instance, static, abstract, interface abstract, interface default} x {last parameter varargs or not}; non-getter/setter methods 18-22 x {0,3 getters/setters} x {class, abstract class, interface}; " +
 		"{0,1,2,4 getters/setters} x {0,1,2 other methods} x {class, interface} (data class / lazy element and their near misses); top-level ifs 6-10 x {no decoy, ifs nested in loops/try/switch, ifs inside the branches of one top-level if} x {class, interface default}; " +
 		"top-level switches 6-10 x {no decoy, nested switches} x 2 forms; ifs/switches 7|8 x 7|8 in one method; condition height 2-6 lines x {if keyword on the condition's line, alone on the line before} x " +
-		"{top-level in a class, top-level in an interface default method, nested in an if, nested in a loop/try, condition of a while}; else-if ladders at the boundaries (one top-level if with 5-9 else-if branches; 6-10 top-level ifs one of which has else-if branches; an else-if condition of 2-6 lines); every method-level dimension (length, parameters, ifs, switches, condition height) T-2…T+2 once more on an accessor-NAMED ordinary method (getReport(a,b,c,d,e,f), a 31-line setUpEverything()); length / parameters / ifs T-2…T+2 on methods (interface default, static, abstract, generic; class instance, static generic) whose keyword modifiers or own type-parameter list stand on the line above the return type; parameters T-2…T+2 x {class, interface default} with explicitly typed (and inferred) lambdas in the body. (b) random classes: 0-28 methods, every method draws parameters, if/switch counts, condition heights, " +
+		"{top-level in a class, top-level in an interface default method, nested in an if, nested in a loop/try, condition of a while}; one point per dimension and offset again in a file with \\r\\n line ends; else-if ladders at the boundaries (one top-level if with 5-9 else-if branches; 6-10 top-level ifs one of which has else-if branches; an else-if condition of 2-6 lines); every method-level dimension (length, parameters, ifs, switches, condition height) T-2…T+2 once more on an accessor-NAMED ordinary method (getReport(a,b,c,d,e,f), a 31-line setUpEverything()); length / parameters / ifs T-2…T+2 on methods (interface default, static, abstract, generic; class instance, static generic) whose keyword modifiers or own type-parameter list stand on the line above the return type; parameters T-2…T+2 x {class, interface default} with explicitly typed (and inferred) lambdas in the body. (b) random classes: 0-28 methods, every method draws parameters, if/switch counts, condition heights, " +
 		"body length near the thresholds with probability 3/4, plus nested carriers, else-if chains (only far from the threshold), getters/setters, abstract methods, constructors, fields, comments and strings mentioning `if (`/`switch (`. " +
-		"(c) ignore part: rich projects of 14 files in which each of the seven kinds has >= 2 findings with different sizes and a near miss, a third of the method-level findings sit on accessor-named methods, and longParameterList has >= 17 findings spread over 4 files with sizes unrelated to the file names, analysed with every one of the 2^7 subsets of kinds as ignore list (x3 projects quick, x9 thorough). " +
+		"(c) ignore part: rich projects of 15 files (one of them, with every method-level kind at its boundary, always with \\r\\n line ends) in which each of the seven kinds has >= 2 findings with different sizes and a near miss, a third of the method-level findings sit on accessor-named methods, and longParameterList has >= 17 findings spread over 4 files with sizes unrelated to the file names, analysed with every one of the 2^7 subsets of kinds as ignore list (x3 projects quick, x9 thorough). " +
 		"Every case: AnalysisPath + IdentifyBadSmell(nil) vs truth table; IdentifyBadSmell(ignore list) == full report minus the named kinds; SortSmellByType of that list in pipeline order AND in an order shuffled from the case stream: keys, permutation, sized kinds non-increasing. " +
 		"Every Nth case instead through `coca bs -p DIR [-x kinds] [-s type]` reading coca_reporter/bs.json (same oracle), DIR spelled in rotation as abs, abs/, rel, ./rel, rel/, `.`, `..`, dir/sub/.., ../dir (common.SpellRoot); in-process AnalysisPath gets dir, dir/ or dir/zzcwd/.. . " +
 		"non-trivial = at least one planted fact within 2 of a threshold; distinct = hash of (per class: kind, fields, constructors, per method: form, role, parameters, varargs, length, if/switch counts, decoy counts, condition heights; ignore mask; CLI/sort flags)",
@@ -93,6 +93,7 @@ var Check = &run.Check{
 		"methods = method declarations of the type (JLS: constructors are not methods); constructors are only generated in classes with >= 1 and != 19 ordinary methods, where either reading gives the same verdicts. A varargs parameter is a parameter",
 		"longMethod is only expected for methods with a body (the statement measures to the closing brace); parameter lists of body-less methods wrap over at most 8 lines",
 		"Size is asserted for longMethod (line difference), longParameterList (#parameters), largeClass (#non-getter/setter methods), repeatedSwitches (#ifs resp. #switches); for dataClass the statement does not say which number it is, so its value is only used for the ordering clause",
+		"about one file in five (and one boundary point per dimension and offset) is written with \\r\\n line ends: the same lines and line numbers as with \\n. Lone \\r line ends are not generated (no conventional file has them; coca's lexer counts lines at \\n only)",
 		"one type per file, no nested/anonymous/local types, lambdas, enums, records; refusedBequest, graphConnectedCall and Description are not compared; Line of class-level findings is not compared",
 		"the in-process sort step passes the five sized kinds as predicate (cmd.isSmellHaveSize is unexported); the predicate coca really uses is exercised by the CLI slice only",
 	},
@@ -127,11 +128,11 @@ func rel(base, name string) string {
 func toTruth(p *smellgen.Project) []oracle.SmellClassTruth {
 	var out []oracle.SmellClassTruth
 	for _, c := range p.Classes {
-		ct := oracle.SmellClassTruth{File: c.RelPath, Kind: c.Kind}
+		ct := oracle.SmellClassTruth{File: c.RelPath, Kind: c.Kind, CRLF: c.CRLF}
 		for i := range c.Methods {
 			m := &c.Methods[i]
 			mt := oracle.SmellMethodTruth{Name: m.Name, Form: m.Form, GetterSetter: m.GetterSetter(), AccessorNamed: m.AccessorNamed, HeadSplit: m.HeadSplit, HeadFirst: m.HeadFirst, TypedLambdaParams: m.TypedLambdaParams, Params: m.Params, Varargs: m.Varargs, Generic: m.Generic, HasBody: m.HasBody,
-				StartLine: m.StartLine, CloseLine: m.CloseLine, TopIfs: m.TopIfs, TopSwitches: m.TopSwitches, DecoyLines: m.DecoyLines, ElseIfLines: m.ElseIfLines}
+				StartLine: m.StartLine, CloseLine: m.CloseLine, TopIfs: m.TopIfs, TopSwitches: m.TopSwitches, DecoyLines: m.DecoyLines, ElseIfLines: m.ElseIfLines, InCRLFFile: c.CRLF}
 			for _, cd := range m.Conds {
 				mt.Conds = append(mt.Conds, oracle.SmellCondTruth{IfLine: cd.IfLine, StartLine: cd.StartLine, EndLine: cd.EndLine})
 			}
@@ -267,8 +268,19 @@ func runCase(c *run.Ctx, o *run.Outcome) {
 	for _, pt := range points {
 		o.Count("planted_near_threshold/"+pt, 1)
 	}
+	for i, cl := range p.Classes {
+		if cl.CRLF {
+			o.Count("files_with_crlf_line_ends", 1)
+			for _, pt := range oracle.SmellBoundaryPoints(truth[i : i+1]) {
+				o.Count("planted_near_threshold_in_crlf_files/"+pt, 1)
+			}
+		}
+	}
 	for _, e := range expected {
 		o.Count("expected_full_report/"+e.Kind, 1)
+		if strings.Contains(e.Ctx, "/crlf-file") {
+			o.Count("expected_method_level_findings_in_crlf_files/"+e.Kind, 1)
+		}
 		if strings.Contains(e.Ctx, "/accessor-named-method") {
 			o.Count("expected_findings_on_accessor_named_methods/"+e.Kind, 1)
 		}
